@@ -354,9 +354,7 @@ func (w *World) AxiomsFor(pkg *types.Package) []*Axiom {
 	sort.Strings(names)
 	for _, n := range names {
 		cf := w.Files[n]
-		if strings.HasPrefix(n, "prelude:") || (pkg != nil && n == pkg.Path()) {
-			out = append(out, cf.Axioms...)
-		}
+		out = append(out, cf.Axioms...)
 	}
 	return out
 }
